@@ -225,6 +225,22 @@ def tasks(tier):
                         alg=E("g", None, ("x", "z", "u")), label=label)
             sample_check(spec, [(E("sz", 2, ("x", "z", "u", "t")), None)], ["control", "control-", "integrator", "integrator-", "integrator_roots"], label)
         out.append(Task(label, fn, kind="bounded", replay=dict(harness="task_probe", module="contracts.c07", task=label, tier=tier), bound=dict(method="DC", N=N, M=M, algebraics=1)))
+    # generated specifications (contracts/randspec.py): an expression of every declared symbol sampled on every grid
+    from . import randspec
+    for i in range(120 if tier == "thorough" else 40):
+        kw = randspec.make(i)
+        if kw.get("discrete"):
+            continue
+        label = "C07/R%03d-%s" % (i, kw["method"])
+        def fn(i=i, label=label):
+            kw = randspec.make(i)
+            spec = Spec(**kw)
+            spec.label = label
+            have = [a for a in ("x", "u", "z", "t", "p", "pc", "pcp", "v", "vc", "vcp", "T", "t0") if a not in ("u", "z") or kw["controls" if a == "u" else "algebraics"]]
+            between = [a for a in have if a != "z" or (kw.get("scheme") == "radau" and kw.get("degree", 2) <= 2)]
+            grids = ["control", "control-", "integrator", "integrator-"]
+            sample_check(spec, [(E("sa", 2, tuple(between)), None)], grids, label)
+        out.append(Task(label, fn, kind="bounded", replay=dict(harness="task_probe", module="contracts.c07", task=label, tier=tier), bound=dict(generated=i)))
     from . import c08
     out += c08.tasks(tier, prop="C07")
     for f_, l_ in ((True, True), (False, True), (True, False)):
